@@ -968,7 +968,13 @@ func (s *Session) BuildFiles(filenames []string, pkgObj string, cwd string) erro
 		bctx:       &goCtx(s.xctx.Env()).bctx,
 	}
 
-	for _, file := range filenames {
+	// The order of the .inc.js files in the output must not depend on the order
+	// in which they were listed: use the order of a directory listing.
+	sortedFilenames := append([]string{}, filenames...)
+	sort.Slice(sortedFilenames, func(i, j int) bool {
+		return filepath.Base(sortedFilenames[i]) < filepath.Base(sortedFilenames[j])
+	})
+	for _, file := range sortedFilenames {
 		jsFile, err := incjs.FromFilename(file)
 		if err != nil {
 			return err
